@@ -14,7 +14,7 @@ Rules: every random choice comes from d.rng (seeded by VERIF_SEED); a failing ca
 concrete inputs in `info` (JSON-serialisable) so it can be replayed; `fail_key` groups failures of one
 defect (used to match known findings) - give it a stable, input-class-specific name.
 """
-import time, random, traceback
+import time, random, traceback, zlib
 from .core import R
 from . import common
 
@@ -22,7 +22,7 @@ from . import common
 class Driver:
     def __init__(self, pid, name, bound, max_fail_report=5):
         self.pid, self.name, self.bound = pid, name, bound
-        self.rng = random.Random(common.seed() * 7919 + hash(name) % 1000)
+        self.rng = random.Random(common.seed() * 7919 + zlib.crc32(('%s/%s' % (pid, name)).encode()) % 100003)
         self.t0 = time.time()
         self.evals = 0
         self.keys = set()
